@@ -73,16 +73,33 @@ func (root *Root) AddTypes(types ...Type) (err error) {
 	// revert to the original version.
 	origTypes := root.types
 	origDirs := root.dirs
+	origSchema := root.schema
+	// As in ParseReader, a schema that was not declared is derived from the
+	// Query, Mutation and Subscription types and has to follow them.
+	derived := origSchema != nil && origTypes.get("") == nil
 	root.types = origTypes.dup()
 	root.dirs = origDirs.dup()
 
 	err = root.addTypes(types...)
 	if err == nil {
+		for _, t := range types {
+			if schema, _ := t.(*Schema); schema != nil {
+				root.schema = schema
+			}
+		}
+		if derived && root.schema == origSchema {
+			root.schema = nil
+			root.assureSchema()
+			root.schema.Dirs = origSchema.Dirs
+		} else {
+			root.assureSchema()
+		}
 		err = root.validate()
 	}
 	if err != nil {
 		root.types = origTypes
 		root.dirs = origDirs
+		root.schema = origSchema
 	}
 	return
 }
